@@ -29,6 +29,7 @@ REGISTRY = {
     "C16": "membership",
     "C17": "measures",
     "C18": "intersect",
+    "C19": "tensorops",
 }
 
 
